@@ -498,9 +498,13 @@ class Session:
             keep_real = {id(self.bind[u]) for u in keep if u in self.bind}
             call = lambda: self.real(op["node"]).filter(lambda nd: id(nd) in keep_real)
         elif k == "addtree":
-            other, omodel = self._foreign(op["spec"])
+            other, omodel = self._foreign(op["spec"], other_typed=bool(op.get("foreign_typed")))
             P_ = self.mnode(op["parent"])
-            if not omodel.top:
+            if op.get("foreign_typed") and omodel.top:
+                # a typed tree handed to a plain one: its nodes cannot be re-created there (the call fails inside the run of
+                # copies, possibly after the up-front checks) - whatever it raises, nothing may stay behind
+                outcome = M.Refuse(M.INVALID, "typed tree added to a plain tree")
+            elif not omodel.top:
                 # "all of its topnodes are added": none - nothing changes (an invalid position is still invalid)
                 pos = m._position(m.kids(P_), self._before_model(op.get("before")))
                 if op.get("via") == "copy_to":
@@ -602,9 +606,14 @@ class Session:
             return lambda mn: len(mn.children)
         return lambda mn: 0
 
-    def _foreign(self, spec):
+    def _foreign(self, spec, other_typed=False):
         """spec: nested [[label, data_id|None, kids]] -> (real foreign tree of the same class, its model)."""
-        other = type(self.tree)("foreign")
+        if other_typed and not self.typed:
+            from nutree.typed_tree import TypedTree
+
+            other = TypedTree("foreign")
+        else:
+            other = type(self.tree)("foreign")
         om = M.MTree(typed=self.typed, rule=hash)
 
         def rec(holder, mk, lst):
@@ -612,7 +621,7 @@ class Session:
                 kw = {}
                 if did is not None:
                     kw["data_id"] = did
-                if self.typed:
+                if self.typed or other_typed:
                     kw["kind"] = "fk"
                 r = holder.add(lab, **kw)
                 mn = om.new(lab, did if did is not None else hash(lab), "fk" if self.typed else None)
@@ -1120,6 +1129,8 @@ def _gen_kind(s, rng, k, nodes, hostile, allow_unspec):
             op["before"] = None
             if op["deep"] is None:
                 op["deep"] = True
+        if hostile and rng.random() < 0.15:
+            op["foreign_typed"] = True
         return op
     if k == "fromdict":
         leaves = [n for n in nodes if not n.children]
